@@ -34,9 +34,9 @@ func (c GenCfg) descend(r *Rng) bool {
 var smallNums = []float64{0, 1, 2, 3}
 var nastyNums = []float64{0, 1, 2, 3, -1, 0.5, 1.5, 0.1, 1e21, 1e-7, 9007199254740993, 2261634.5098039214, math.Copysign(0, -1), 1.00001, 1.0005, 100, -2.5}
 var smallStrs = []string{"a", "b", "c", ""}
-var nastyStrs = []string{"a", "b", "c", "", "AAAAAAAA", "100%d done", "50%", "a%%20b", "%s%v%!", "$1 \\1 ${x}", "`x`", "'q'", "true", "1", "null", "a/b", "m~n", "-", "0", "01", "<x>&", " ", "é", "😀", "line\nbreak", "tab\t", "q\"uote", "back\\slash", "\x01", "{}", "[]", " "}
+var nastyStrs = []string{"a", "b", "c", "", "AAAAAAAA", "100%d done", "50%", "a%%20b", "%s%v%!", "$1 \\1 ${x}", "`x`", "'q'", "true", "1", "null", "a/b", "m~n", "a/b/c", "~a~", "//", "~~", "x~/~/y", "-", "0", "01", "<x>&", " ", "é", "😀", "line\nbreak", "line1\u0085line2", "del\x7f", "tab\t", "q\"uote", "back\\slash", "\x01", "{}", "[]", " "}
 var smallKeys = []string{"a", "b", "c", "d"}
-var nastyKeys = []string{"a", "b", "c", "d", "", "/", "~", "~0", "~1", "~01", "a/b", "m~n", "-", "0", "1", "01", "-1", "<<", "é", "id", "k", "a ", " ", "\t", " a", "\u00a0", "k\n", "a\u0001b", "\u007f", "b\a\v", "ID", "Id", "iD", "A"}
+var nastyKeys = []string{"a", "b", "c", "d", "", "/", "~", "~0", "~1", "~01", "a/b", "m~n", "a/b/c", "~a~", "//", "~~", "x~/~/y", "-", "0", "1", "01", "-1", "<<", "é", "id", "k", "a ", " ", "\t", " a", "\u00a0", "k\n", "a\u0001b", "\u007f", "b\a\v", "ID", "Id", "iD", "A"}
 
 func DefaultCfg() GenCfg {
 	return GenCfg{MaxDepth: 3, MaxLen: 5, MaxKeys: 3, Nums: smallNums, Strs: smallStrs, Keys: smallKeys, AllowNull: true, AllowBool: true, ScalarBias: 5}
